@@ -96,8 +96,13 @@ def main():
     ap = argparse.ArgumentParser()
     ap.add_argument("-j", type=int, default=14); ap.add_argument("--scale", type=float, default=0.15)
     ap.add_argument("--files", default=""); ap.add_argument("--limit", type=int, default=0); ap.add_argument("--out", default=V + "/mutscreen/results.jsonl")
+    ap.add_argument("--rerun-survivors", default="", help="results.jsonl of an earlier run: only its SURVIVED mutants are run again (e.g. at --scale 1.0)")
     a = ap.parse_args()
     files = [f for f in a.files.split(",") if f] or list(FILEMAP)
+    only = None
+    if a.rerun_survivors:
+        only = {(r["file"], r["id"]) for r in map(json.loads, open(a.rerun_survivors)) if r["status"] == "SURVIVED" and not (r["file"] == "header_extension.go" and (r["func"].endswith(".Set") or r["func"].endswith(".Del")))}
+        files = sorted({f for f, _ in only})
     os.makedirs(TMP, exist_ok=True); os.makedirs(os.path.dirname(a.out), exist_ok=True)
     rc, out = sh(["go", "build", "-o", TMP + "/mutgen", "./cmd/mutgen"], H, 300)
     if rc: print(out); sys.exit(1)
@@ -109,6 +114,7 @@ def main():
         idx = json.load(open(d + "/index.json"))
         if a.limit: idx = idx[:a.limit]
         for e in idx:
+            if only is not None and (rel, e["id"]) not in only: continue
             jobs.append([0, rel, e["id"], e, f"{d}/{e['id']:04d}.go", a.scale])
     for i, j in enumerate(jobs): j[0] = i % a.j
     # one worker directory per pool slot: jobs with the same k must not run concurrently -> chunk by k
